@@ -42,7 +42,7 @@ def gen_jobs(quick):
         ("pair66", g(PeerMaxes="{66}", MaxPktG=100, Ops='{"send", "pack", "deliver", "read"}', Depth=3 if quick else 5), None),
         # the whole path send -> pack -> deliver -> read, two datagrams deep, both varint lengths
         ("e2e", g(PeerMaxes="{66}", MaxPktG=100, SendBase="{0}", SendAround="{3}", Ops='{"send", "pack", "lose", "deliver", "read"}',
-                  Depth=5 if quick else 6), None),
+                  Depth=4 if quick else 6), None),
         # every limit class incl. 0 = disabled, tiny, the 2/4-byte varint boundary, the maximum; no injected frames
         ("limits", g(PeerMaxes="{0, 8, 16390}" if quick else "{0, 1, 8, 64, 1200, 16390, 65535}",
                      Ops='{"send", "pack", "packfull", "lose", "deliver", "read", "connerr"}', Depth=3 if quick else 4), None),
